@@ -533,6 +533,16 @@ class SChoice:
                       [getattr(v, name) for v in self._values])
 
 
+def name_term(r):
+    """Give a large term a fresh name (r' == term asserted once), so that the
+    incremental solver internalises it once instead of with every query."""
+    import z3
+    p = cur()
+    v = z3.BitVec(p.fresh_name('t'), core.W)
+    p.assume(v == r.e)
+    return SInt(v, r.lo, r.hi)
+
+
 def choose(idx, keys, values):
     """The value values[j] where keys[j] == idx (idx symbolic, one key is
     known to match).  ints -> Ite chain; equal-kind sequences -> by length
@@ -546,12 +556,14 @@ def choose(idx, keys, values):
                 type(kk) is int for kk in keys):
             d = values[0] - keys[0]
             if all(v - kk == d for v, kk in zip(values, keys)):
-                return idx + d
+                return idx + d if d else idx
             if all(v == values[0] for v in values):
                 return values[0]
         r = values[-1]
         for kk, v in zip(reversed(keys[:-1]), reversed(values[:-1])):
             r = Ite(idx == kk, v, r)
+        if len(values) > 16 and isinstance(r, SInt):
+            r = name_term(r)
         return r
     kinds = set(seq.kind_of(v) for v in values)
     if len(kinds) == 1 and None not in kinds:
@@ -616,7 +628,14 @@ def _key_candidates(d, key):
         kind = key.kind
         want = bytes if kind in (BYTES, BARR) else str
         n = len(key)
-        return [kk for kk in d if type(kk) is want and len(kk) == n]
+        ivals = [core._ival(e) for e in key.items]
+        out = []
+        for kk in d:
+            if type(kk) is want and len(kk) == n:
+                ke = kk if want is bytes else [ord(c) for c in kk]
+                if all(lo <= c <= hi for c, (lo, hi) in zip(ke, ivals)):
+                    out.append(kk)
+        return out
     return None
 
 
@@ -625,11 +644,25 @@ def dict_lookup(d, key, default=None, raise_missing=True):
     if cands is None:
         return d[realise(key)] if raise_missing else d.get(realise(key),
                                                            default)
-    present = Or(*[key == kk for kk in cands])
+    single = None
+    if isinstance(key, SSeq) and len(key) == 1:
+        single = key.items[0]
+        lo, hi = core._ival(single)
+        if len(cands) == hi - lo + 1:
+            present = True          # every value of the element is a key
+        else:
+            present = Or(*[key == kk for kk in cands])
+    else:
+        present = Or(*[key == kk for kk in cands])
     if not present:
         if raise_missing:
             raise KeyError('<sym>')
         return default
+    if single is not None and isinstance(single, SInt):
+        ords = [kk[0] if type(kk) is bytes else ord(kk) for kk in cands]
+        order = sorted(range(len(cands)), key=lambda t: ords[t])
+        return choose(single, [ords[t] for t in order],
+                      [d[cands[t]] for t in order])
     return choose_by_eq(key, cands, [d[kk] for kk in cands])
 
 
